@@ -115,6 +115,17 @@ func c04Input(w *workspace, variant int, r *rand.Rand) {
 		}
 		w.writeCSVBook(sub, bookSpec{Name: "Mall" + strconv.Itoa(k), Sheets: []sheetSpec{{Name: "Mall" + strconv.Itoa(k) + "Conf", Rows: rows, Meta: map[string]string{"Transpose": "true"}}}})
 	}
+	// a workbook described by a HAND-WRITTEN proto file whose message-typed field carries no (tableau.field) option (the
+	// proto file is put next to the generated ones before every conf run), next to books with in-cell structs: what an
+	// option-less field means must not depend on which pooled options object its parser happens to get
+	writeCSV(filepath.Join(w.In, sub, "Server#ServerConf.csv"), [][]string{{"Name", "LimitsMaxPlayers", "LimitsMaxRooms"}, {"string", "int32", "int32"}, {"n", "p", "r"}, {"alpha", "100", "8"}})
+	for k := 1; k <= 3; k++ {
+		rows := [][]string{{"ID", "Name", "Price"}, {"map<uint32, ShopItem" + strconv.Itoa(k) + ">", "string", "{int32 Gold,int32 Gem}Price" + strconv.Itoa(k)}, {"id", "name", "price"}}
+		for id := 1; id <= 40; id++ {
+			rows = append(rows, []string{strconv.Itoa(id), "n" + strconv.Itoa(id), strconv.Itoa(id) + "," + strconv.Itoa(id%7)})
+		}
+		w.writeCSVBook(sub, bookSpec{Name: "Shop" + strconv.Itoa(k), Sheets: []sheetSpec{{Name: "Shop" + strconv.Itoa(k) + "Conf", Rows: rows}}})
+	}
 	if variant&1 == 1 && variant&16 == 0 {
 		// a single defect: one bad cell in one secondary merger book
 		w.writeCSVBook(sub, bookSpec{Name: "Zone3", Sheets: []sheetSpec{{Name: "ZoneConf", Rows: [][]string{{"ID", "Name"}, {"t", "t"}, {"n", "n"}, {"30", "a"}, {"bad!", "b"}}}}, NoMeta: true})
@@ -138,6 +149,12 @@ func c04Run(w *workspace, outIdx int, variant int, named bool) (snap string, err
 	}
 	if err := tableau.GenProto("protoconf", w.In, outProto, options.Proto(po), options.Log(quietLog)); err != nil {
 		return "", "proto:" + errCode(err)
+	}
+	serverProto := "syntax = \"proto3\";\npackage protoconf;\nimport \"tableau/protobuf/tableau.proto\";\noption (tableau.workbook) = {name:\"excel/Server#*.csv\"};\n\n" +
+		"message ServerConf {\n  option (tableau.worksheet) = {name:\"ServerConf\"};\n  string name = 1;\n  Limits limits = 2;\n}\n\n" +
+		"message Limits {\n  int32 max_players = 1;\n  int32 max_rooms = 2;\n}\n"
+	if err := os.WriteFile(filepath.Join(outProto, "server.proto"), []byte(serverProto), 0o644); err != nil {
+		panic(err)
 	}
 	co := &options.ConfOption{
 		Input:  &options.ConfInputOption{ProtoPaths: []string{outProto}, ProtoFiles: []string{filepath.Join(outProto, "*.proto")}, Formats: []format.Format{format.CSV}, Subdirs: []string{"excel"}, SubdirRewrites: rewrites},
